@@ -40,7 +40,8 @@ func init() {
 			"payloads of 0..40 bytes (all base64 paddings), egress recorder absent/present (externalized 0/>0), trace providers absent/valid/malformed " +
 			"(length, case, non-hex, one half empty)/panicking, claim sets mixing sensitive and harmless names in every letter case incl. Kelvin sign and long s, " +
 			"redactors default/verbatim/custom answer/empty/panicking; plus real HTTP histories (unary, producer and exchange streams with continuations, " +
-			"failures, cancellation, compression on/off, chunked uploads, authenticated callers with claims, X-Request-ID echo). " +
+			"failures, cancellation, compression on/off, chunked uploads, authenticated callers with claims, X-Request-ID echo, and connection faults under " +
+			"the server: the response write is refused / cut in the middle / loses its last byte at the first, second or third Write, or after a byte budget). " +
 			"non-trivial = a rec line or an http history with at least one call; distinct = distinct scripts",
 		Gen:  c38Gen,
 		Exec: c38Exec,
@@ -538,7 +539,7 @@ func c38Exec(c *Case) {
 				h.close()
 			}
 			h = c38NewHTTP(c, l, f)
-		case f[0] == "un" || f[0] == "px" || f[0] == "ex":
+		case f[0] == "un" || f[0] == "px" || f[0] == "ex" || f[0] == "fault":
 			if h == nil {
 				c.Out(l, "err:no-server")
 				continue
